@@ -2,6 +2,7 @@ package pt
 
 import (
 	"fmt"
+	"go/token"
 	"go/types"
 	"strings"
 
@@ -374,7 +375,15 @@ func isReset(fn *ssa.Function) bool {
 			switch x := in.(type) {
 			case *ssa.Store:
 				c, ok := x.Val.(*ssa.Const)
-				if !ok || c.Value == nil || c.Value.ExactString() != "0" {
+				if !ok {
+					return false
+				}
+				if c.Value == nil {
+					// `*r = T{}`: the zero value of an aggregate stored through the receiver
+					if x.Addr != fn.Params[0] {
+						return false
+					}
+				} else if c.Value.ExactString() != "0" {
 					return false
 				}
 				stores++
@@ -402,7 +411,7 @@ func singleBlockInlineable(fn *ssa.Function) bool {
 			}
 		}
 	}
-	return len(fn.Blocks[0].Instrs) <= 12
+	return len(fn.Blocks[0].Instrs) <= 40
 }
 
 func (it *interp) moduleCall(x *ssa.Call, fn *ssa.Function) val {
@@ -419,7 +428,21 @@ func (it *interp) moduleCall(x *ssa.Call, fn *ssa.Function) val {
 		it.event(name, nil, x, nil)
 		return tv{Leaf("void")}
 	}
-	if !it.m.NoInline && singleBlockInlineable(fn) && it.depth < 3 && !it.m.Pure[ssau.QName(fn)] && (it.m.Name == nil || it.m.Name(fn) == "") {
+	if it.m.InlineAll != nil && it.m.InlineAll(fn) && it.depth < 4 && len(fn.Blocks) > 0 {
+		return it.inlineFull(x, fn)
+	}
+	// small helpers are interpreted in place only when they are private to the package under analysis (unexported
+	// functions and methods); exported functions of other packages are the named primitives of the terms
+	samePkg := fn.Pkg != nil && it.fn.Pkg != nil && fn.Pkg == it.fn.Pkg
+	if it.fn.Parent() != nil {
+		top := it.fn
+		for top.Parent() != nil {
+			top = top.Parent()
+		}
+		samePkg = fn.Pkg == top.Pkg
+	}
+	private := fn.Parent() != nil || (samePkg && (fn.Signature.Recv() != nil || !token.IsExported(fn.Name())))
+	if !it.m.NoInline && private && singleBlockInlineable(fn) && it.depth < 3 && !it.m.Pure[ssau.QName(fn)] && (it.m.Name == nil || it.m.Name(fn) == "") {
 		return it.inline(x, fn)
 	}
 	args := it.argTerms(c.Args)
@@ -529,5 +552,56 @@ func (it *interp) inline(x *ssa.Call, fn *ssa.Function) val {
 	it.hashes = append(it.hashes, sub.hashes...)
 	it.objs = append(it.objs, sub.objs...)
 	_ = fmt.Sprint
+	return ret
+}
+
+// inlineFull interprets a (possibly multi-block, loop-carrying) callee in place with the caller's memory; used when a
+// rule needs the callee's effect element by element (unrolled-stage analysis through delegating wrappers).
+func (it *interp) inlineFull(x *ssa.Call, fn *ssa.Function) val {
+	c := x.Common()
+	sub := &interp{fn: fn, m: it.m, env: map[ssa.Value]val{}, globals: it.globals, path: it.path, valu: it.valu,
+		decs: it.decs, dpos: it.dpos, visits: map[*ssa.BasicBlock]int{}, depth: it.depth + 1}
+	for i, p := range fn.Params {
+		sub.env[p] = it.get(c.Args[i])
+	}
+	if len(fn.FreeVars) > 0 {
+		if cv, ok := it.get(c.Value).(clo); ok && len(cv.binds) == len(fn.FreeVars) {
+			for i, fv := range fn.FreeVars {
+				sub.env[fv] = cv.binds[i]
+			}
+		}
+	}
+	b := fn.Blocks[0]
+	var prev *ssa.BasicBlock
+	var ret val = tv{Leaf("void")}
+	kind := it.path.Kind
+	for steps := 0; steps < 100000; steps++ {
+		sub.visits[b]++
+		if sub.visits[b] > 1200 {
+			it.unrec("inlined callee %s loops too long", fn.Name())
+			break
+		}
+		sub.curBlk = b
+		next, done := sub.block(b, prev)
+		if sub.restart {
+			it.restart = true
+			break
+		}
+		if done {
+			if it.path.Kind == "return" && len(it.path.Results) > 0 {
+				ret = tv{it.path.Results[len(it.path.Results)-1]}
+			}
+			break
+		}
+		prev, b = b, next
+	}
+	// the callee's return must not terminate the caller's path
+	if it.path.Kind != "panic" {
+		it.path.Kind = kind
+		it.path.Results = nil
+	}
+	it.decs, it.dpos = sub.decs, sub.dpos
+	it.hashes = append(it.hashes, sub.hashes...)
+	it.objs = append(it.objs, sub.objs...)
 	return ret
 }
